@@ -114,8 +114,13 @@ func (self *mutateContext) runPreCommitActions() error {
 }
 
 func (self *mutateContext) handleCommit() {
+	// the actions belong to the transaction which just committed: if the context goes on to be used for another
+	// transaction they must not run a second time with that one
+	commitActions := self.commitActions
+	self.commitActions = nil
+	self.preCommitActions = nil
 	go func() {
-		for _, hook := range self.commitActions {
+		for _, hook := range commitActions {
 			hook()
 		}
 	}()
